@@ -31,7 +31,7 @@ Case vf_generate() {
   Case c;
   c.spec = ga::gen_spec();
   c.hist = ga::gen_history(c.spec, 14);
-  c.corrupt = vf::pickn(4);
+  c.corrupt = vf::pickn(8) + 8 * vf::pickn(40);   // variant + 8 * number of blank characters put between header and messages
   if (vf::chance(40)) {
     c.hist2 = ga::gen_history(c.spec, 6);
     const ga::PSpec *pp = c.spec.find(c.spec.root, ga::PRESET);
@@ -46,15 +46,16 @@ static std::set<std::string> expected_saved(ga::App &m) {
     if (!p.has_default) continue;
     if (ga::kind_of(p.field) == ga::K_ABOOL) {   // 'vp#3/on': every element is its own line
       ga::Val cur = ga::get_root(m.root, p.field);
-      for (size_t k = 0; k < 3; k++) if (cur.ai[k] != p.default_for(m.root.preset).ai[k]) e.insert("/vp" + std::to_string(k) + "/on");
+      for (size_t k = 0; k < 3; k++) if (cur.ai[k] != p.default_for(m.root.preset).ai[k]) e.insert(ga::top() + "/vp" + std::to_string(k) + "/on");
       continue;
     }
-    if (!ga::get_root(m.root, p.field).eq(p.default_for(m.root.preset), ga::kind_of(p.field))) e.insert(std::string("/") + ga::name_of(p.field));
+    if (!ga::get_root(m.root, p.field).eq(p.default_for(m.root.preset), ga::kind_of(p.field))) e.insert(ga::top() + "/" + ga::name_of(p.field));
   }
   std::vector<ga::Sub *> ss = m.subs();
   std::vector<std::string> pre = m.sub_prefixes();
   for (size_t k = 0; k < ss.size(); k++) {
-    bool by_en = (pre[k] == "/sub/" && m.spec.sub_en_by) || (pre[k] == "/psub/" && m.spec.psub_en_by) || (pre[k].compare(0, 5, "/subs") == 0 && m.spec.subs_en_by);
+    const std::string q = pre[k].substr(ga::top().size());
+    bool by_en = (q == "/sub/" && m.spec.sub_en_by) || (q == "/psub/" && m.spec.psub_en_by) || (q.compare(0, 5, "/subs") == 0 && m.spec.subs_en_by);
     if (by_en && !m.root.en) continue;
     bool self_off = m.spec.self_on && !ss[k]->on;
     for (auto &p : m.spec.sub) {
@@ -80,13 +81,16 @@ static std::vector<std::string> message_lines(const std::string &file) {
 }
 
 std::string vf_run(const Case &c, vf::Ctx &ctx) {
+  c.spec.set_mode();
+  if (c.spec.short_names) ctx.count("class.one_letter_names_of_depended_on_ports");
+  if (c.spec.nested) ctx.count("class.application_mounted_one_level_down");
   ga::App app(c.spec), model(c.spec), fresh(c.spec), untouched(c.spec);
   const rtosc_version ver = {1, 2, 3};
   std::string D = " | " + c.describe();
   std::set<std::string> written;
   // (1) an untouched application saves only the two header lines
   untouched.attach();
-  std::string f0 = rtosc::save_to_file(*untouched.rootports, &untouched.root, "genapp", ver, written, {});
+  std::string f0 = rtosc::save_to_file(untouched.saveroot(), &untouched.root, "genapp", ver, written, {});
   written.clear();
   {
     std::vector<std::string> ml = message_lines(f0);
@@ -114,7 +118,7 @@ std::string vf_run(const Case &c, vf::Ctx &ctx) {
   auto save_and_check = [&]() -> std::string {
     app.attach();
     written.clear();
-    file = rtosc::save_to_file(*app.rootports, &app.root, "genapp", ver, written, {});
+    file = rtosc::save_to_file(app.saveroot(), &app.root, "genapp", ver, written, {});
     lines = message_lines(file);
     got.clear();
     for (auto &l : lines) {
@@ -140,7 +144,7 @@ std::string vf_run(const Case &c, vf::Ctx &ctx) {
   // (3) load into a freshly default-initialised instance
   fresh.attach();
   ga::hook().fn = [&](const char *loc) { fresh.on_changed(loc); };
-  int rv = rtosc::load_from_file(file.c_str(), *fresh.rootports, &fresh.root, "genapp", ver);
+  int rv = rtosc::load_from_file(file.c_str(), fresh.saveroot(), &fresh.root, "genapp", ver);
   ga::hook().fn = nullptr;
   if (rv != (int)lines.size()) return "load_from_file returns " + std::to_string(rv) + " for a savefile with " + std::to_string(lines.size()) + " message lines" + D + " | file=\"" + vf::esc(file) + "\"";
   {
@@ -151,25 +155,31 @@ std::string vf_run(const Case &c, vf::Ctx &ctx) {
   {
     std::string bad = file;
     const char *what = "";
-    switch (c.corrupt) {
+    // blank space behind the header (any amount is allowed there)
+    { size_t h2 = bad.find('\n', bad.find('\n') + 1); int pad = c.corrupt / 8; std::string sp; for (int k = 0; k < pad; k++) sp += (k % 5 == 4) ? '\n' : ' '; if (h2 != std::string::npos) bad.insert(h2 + 1, sp + (pad ? "\n" : "")); }
+    switch (c.corrupt % 8) {
       case 0: bad.replace(0, 9, "% RX OSC "); what = "a wrong first header line"; break;
       case 1: { size_t p = bad.find("genapp"); bad.replace(p, 6, "otherapp"); what = "another application's name"; break; }
       case 2: bad += "\n$$ not a message\n"; what = "an unparsable line"; break;
-      default: bad += "\n/no_such_port_anywhere 1\n"; what = "a line no port accepts"; break;
+      case 3: bad += "\n/no_such_port_anywhere 1\n"; what = "a line no port accepts"; break;
+      case 4: { size_t p = bad.find("genapp v"); bad.erase(p + 7, 1); what = "an application version without the 'v'"; break; }
+      case 5: { size_t p = bad.find("genapp v1.2.3"); bad.replace(p, 13, "genapp v1.2"); what = "an application version of two numbers"; break; }
+      case 6: { size_t p = bad.find("genapp v1.2.3"); bad.replace(p, 13, "genapp"); what = "no application version"; break; }
+      default: { size_t p = bad.find("savefile"); bad.replace(p, 8, "savefil"); what = "a misspelt first header line"; break; }
     }
     ga::App victim(c.spec);
     victim.attach();
     ga::hook().fn = [&](const char *loc) { victim.on_changed(loc); };
-    int r2 = rtosc::load_from_file(bad.c_str(), *victim.rootports, &victim.root, "genapp", ver);
+    int r2 = rtosc::load_from_file(bad.c_str(), victim.saveroot(), &victim.root, "genapp", ver);
     ga::hook().fn = nullptr;
     if (r2 >= 0) return std::string("a savefile with ") + what + " is accepted (load_from_file returns " + std::to_string(r2) + ")" + D;
-    ctx.count(std::string("rejected.") + std::to_string(c.corrupt));
+    ctx.count(std::string("rejected.") + std::to_string(c.corrupt % 8));
   }
   // classification
   bool deep = false, typed = false, preset_in_force = false;
   for (auto &g : got) {
-    if (g.find('/', 1) != std::string::npos) deep = true;
-    for (auto &p : c.spec.root) if (g == std::string("/") + ga::name_of(p.field) && ga::kind_of(p.field) != ga::K_INT) typed = true;
+    if (g.find('/', 1 + ga::top().size()) != std::string::npos) deep = true;
+    for (auto &p : c.spec.root) if (g == ga::top() + "/" + ga::name_of(p.field) && ga::kind_of(p.field) != ga::K_INT) typed = true;
   }
   for (auto &p : c.spec.root) if (p.depends && model.root.preset >= 0 && model.root.preset < 3 && p.has_preset[(size_t)model.root.preset]) preset_in_force = true;
   ctx.count("saved_lines", lines.size());
